@@ -115,7 +115,7 @@ variable {S : Type} [DecidableEq S]
 /-! ### grants are bound to the envelope id and the context -/
 
 theorem collect_other_binding (P : Prims) (hP : PrimsSecure P) (F : Scalars S) (dk : DedupKey S) (keypairs : List Bytes)
-    (envId ctx envId' ctx' : Bytes) (hne : envId' ≠ envId ∨ ctx' ≠ ctx) (matched : Nat → Option Bytes) :
+    (envId ctx envId' ctx' : Bytes) (hne : envId' ≠ envId ∨ ctx' ≠ ctx) (matched : Nat → List Bytes) :
     ∀ (pairs : List (GrantConfig × List (S × S))) (gi : Nat) (gs : List Grant) (acc : Acc S) (unl : List Nat),
       mkGrants P F keypairs envId ctx gi pairs = .ok gs →
       collect P F dk matched envId' ctx' gi gs acc unl = (acc, unl)
